@@ -49,8 +49,15 @@ def judge(name, box, params, status, out, second=None, hull_limit=HULL_LIMIT, hu
             facts["oracles_cross_checked"] = True
             if support.hull(name, box, params) != hull:
                 facts["oracle_mismatch"] = True
+            if name in support.WIDE and (pts & 3) == 0 and support.hull_wide(name, box, params) != hull:
+                facts["oracle_mismatch"] = True
     elif name in support.SUPPORTED and all(a <= b for a, b in box):
-        hull = support.hull(name, box, params)  # exact, by feasibility probing - no enumeration
+        # exact, by feasibility probing - no enumeration; on wide domains by probing breakpoints / bisection only
+        if name in support.WIDE and max(b - a for a, b in box) > 64:
+            hull = support.hull_wide(name, box, params)
+            facts["hull_wide"] = True
+        else:
+            hull = support.hull(name, box, params)
         cnt = -1
         facts["hull"] = True
         facts["hull_by_support"] = True
